@@ -248,6 +248,11 @@ def run_check(modname, tier='quick', seed=0):
             if o['status'] == 'unsat':
                 n_dis += 1
                 continue
+            if o['name'].startswith('frame:'):
+                # the loop specification does not describe a container the (changed) body mutates: the function is no longer
+                # covered by its contract - undecided, not evidence against the property
+                undecided.append(dict(function=r['function'], reason='%s: the loop specification does not cover this container' % o['name']))
+                continue
             # failed obligation (sat with model, or not dischargeable within the budget)
             concrete = None
             if o.get('model') is not None and hasattr(mod, 'replay_model'):
